@@ -398,6 +398,8 @@ impl<'a> Em<'a> {
             };
             let start = t.len();
             match k {
+                // both parentheses of a pair chosen to stay raw must stay raw
+                _ if raw_pair[i] => t.push(c),
                 6 | 7 => {
                     // octal, 1-3 digits; 3 when a digit follows
                     let min = if c >= 64 { 3 } else if c >= 8 { 2 } else { 1 };
@@ -425,7 +427,6 @@ impl<'a> Em<'a> {
                     }
                 }
                 _ => match (c, named) {
-                    (b'(' | b')', _) if raw_pair[i] => t.push(c),
                     (_, Some(e)) => {
                         if k >= 4 || c != b'\t' && c != 8 && c != 12 {
                             // named escape (optional for TAB, BS, FF; needed for the others)
